@@ -17,6 +17,84 @@ use std::sync::atomic::{AtomicU64, Ordering};
 pub struct C15 {
     pub roundtrips: AtomicU64,
     pub workdir: String,
+    /// histories up to this length are also modified after their first save and saved again
+    pub modify_depth: usize,
+}
+
+/// The modifications applied to a store that has already been saved once (each touches a member that has its own file).
+pub const MODS: [&str; 4] = ["remove_data", "remove_key", "annotate-new-data", "remove_annotation"];
+
+fn modify(s: &mut AnnotationStore, m: &str) -> Option<Result<(), StamError>> {
+    match m {
+        "remove_data" => {
+            let (set, d) = s.datasets().find_map(|ds| ds.data().next().map(|d| (ds.handle(), d.handle())))?;
+            Some(s.remove_data(set, d, false))
+        }
+        "remove_key" => {
+            let (set, k) = s.datasets().find_map(|ds| ds.keys().next().map(|k| (ds.handle(), k.handle())))?;
+            Some(s.remove_key(set, k, false))
+        }
+        "annotate-new-data" => {
+            let rid = s.resources().next()?.id()?.to_string();
+            let sid = s.datasets().next()?.id()?.to_string();
+            Some(s.annotate(AnnotationBuilder::new().with_id("zz-new").with_target(SelectorBuilder::resourceselector(rid)).with_data_with_id(sid, "zz-key", "zz-value", "zz-data")).map(|_| ()))
+        }
+        "remove_annotation" => {
+            let a = s.annotations().next()?.handle();
+            Some(s.remove_annotation(a))
+        }
+        _ => None,
+    }
+}
+
+fn save_load(store: &mut AnnotationStore, file: &str, first: bool) -> Result<Vec<(String, String)>, String> {
+    let r = if first { catch(|| store.to_file(file)) } else { catch(|| store.save()) };
+    match r {
+        Err(p) => return Err(format!("save-panic:{}", msg_class(&p))),
+        Ok(Err(e)) => return Err(format!("save-err:{}", err_class(&e))),
+        Ok(Ok(())) => {}
+    }
+    match catch(|| AnnotationStore::from_file(file, Config::default())) {
+        Err(p) => Err(format!("load-panic:{}", msg_class(&p))),
+        Ok(Err(e)) => Err(format!("load-err:{}", err_class(&e))),
+        Ok(Ok(s)) => catch(|| ser_abstract(&s, false, false)).map_err(|p| format!("observation-panic-after-load:{}", msg_class(&p))),
+    }
+}
+
+/// Differential check of incremental saving: the same store is (A) saved, modified and saved again under the same name, and
+/// (B) modified and then saved for the first time elsewhere. What is loaded back from A must be what is loaded back from B
+/// (whatever the CSV format itself loses is lost on both sides).
+pub fn csv_modify_after_save(hist: &[crate::ops::Op], m: &str, dir: &str) -> Option<RoundTripFail> {
+    let _ = std::fs::remove_dir_all(dir);
+    std::fs::create_dir_all(format!("{}/a", dir)).expect("workdir");
+    std::fs::create_dir_all(format!("{}/b", dir)).expect("workdir");
+    let (fa, fb) = (format!("{}/a/x.store.stam.csv", dir), format!("{}/b/x.store.stam.csv", dir));
+    let (mut b, _) = replay_real(hist);
+    match catch(|| modify(&mut b, m)) {
+        Ok(Some(Ok(()))) => {}
+        _ => return None, // nothing to modify, or the modification itself fails (C01/C02)
+    }
+    let rb = match save_load(&mut b, &fb, true) {
+        Ok(r) => r,
+        Err(_) => return None, // the modified store does not survive a plain round trip: that is the main oracle's finding
+    };
+    let (mut a, _) = replay_real(hist);
+    if save_load(&mut a, &fa, true).is_err() {
+        return None;
+    }
+    match catch(|| modify(&mut a, m)) {
+        Ok(Some(Ok(()))) => {}
+        _ => return None,
+    }
+    let out = match save_load(&mut a, &fa, false) {
+        Err(symptom) => Some(RoundTripFail { symptom, detail: format!("files: {}", csv_files(&format!("{}/a", dir))) }),
+        Ok(ra) => diff_ser(&rb, &ra).map(|(section, detail)| RoundTripFail {
+            symptom: format!("differs@{}:{}", section, diff_aspect(&detail)),
+            detail: format!("first: saved for the first time after the modification, second: saved, modified, saved again: {} -- files of the second: {}", detail, csv_files(&format!("{}/a", dir))),
+        }),
+    };
+    let _ = std::fs::remove_dir_all(dir);
+    out
 }
 
 const QUERIES: [&str; 6] = [
@@ -172,6 +250,14 @@ impl Oracle for C15 {
         if let Some(f) = csv_roundtrip(&mut store, &dir) {
             rep.fail(&format!("{}", f.symptom), t.ord, || f.detail.clone(), || json!({"history": history_json(&hist, None)}));
         }
+        if t.depth <= self.modify_depth {
+            for m in MODS {
+                self.roundtrips.fetch_add(1, Ordering::Relaxed);
+                if let Some(f) = csv_modify_after_save(&hist, m, &dir) {
+                    rep.fail(&format!("modify-after-save:{}|{}", m, f.symptom), t.ord, || f.detail.clone(), || json!({"history": history_json(&hist, None), "modify_after_save": m}));
+                }
+            }
+        }
         true
     }
 }
@@ -179,7 +265,7 @@ impl Oracle for C15 {
 pub fn run(rep: &Reporter) -> Coverage {
     let workdir = crate::util::work_dir("w");
     std::fs::create_dir_all(&workdir).expect("workdir");
-    let oracle = C15 { roundtrips: AtomicU64::new(0), workdir: workdir.clone() };
+    let oracle = C15 { roundtrips: AtomicU64::new(0), workdir: workdir.clone(), modify_depth: rep.tier.pick(2, 3) };
     let mut cov = Coverage::default();
     let mut runs = Vec::new();
     let budget = rep.tier.pick(45.0, 1500.0);
@@ -223,7 +309,7 @@ pub fn run(rep: &Reporter) -> Coverage {
     cov.traces_validated = cov.transitions;
     cov.extra.insert("explorations".into(), json!(runs));
     cov.extra.insert("value_sweep_stores".into(), json!(values.len()));
-    cov.rule = "every distinct state of the history exploration (as C01; ids never contain ';') is saved with to_file(*.store.stam.csv) and loaded with from_file; resources+texts, datasets, keys, data ids and the text of values, annotations in order with ids, target kinds, referenced items and the absolute text ranges of all offsets, and data references must be identical (value types and offset alignment are outside the claim); value sweep: one store per value of the menu; non-trivial = states with a removed and a live annotation".into();
+    cov.rule = "every distinct state of the history exploration (as C01; ids never contain ';') is saved with to_file(*.store.stam.csv) and loaded with from_file; resources+texts, datasets, keys, data ids and the text of values, annotations in order with ids, target kinds, referenced items and the absolute text ranges of all offsets, and data references must be identical (value types and offset alignment are outside the claim); states up to depth 2 (quick) / 3 (thorough) are also saved, modified in four ways (a data item / a key / an annotation removed, an annotation with new data added), saved again with save() and loaded: the result must equal what is loaded from a first save of the same modified store; value sweep: one store per value of the menu; non-trivial = states with a removed and a live annotation".into();
     cov.assumptions = vec!["id-less items are compared by rank".into()];
     cov
 }
@@ -235,6 +321,17 @@ pub fn replay(rep: &Reporter, case: &Value) {
         println!("   {}", o.short());
     }
     let workdir = crate::util::work_dir("w");
+    if let Some(m) = case["modify_after_save"].as_str() {
+        match csv_modify_after_save(&hist, m, &workdir) {
+            Some(f) => {
+                println!("  modify-after-save:{}|{} :: {}", m, f.symptom, f.detail);
+                rep.fail(&format!("modify-after-save:{}|{}", m, f.symptom), 0, || f.detail.clone(), || case.clone());
+            }
+            None => println!("  incremental save agrees with a first save"),
+        }
+        let _ = std::fs::remove_dir_all(&workdir);
+        return;
+    }
     let (mut store, _) = replay_real(&hist);
     match csv_roundtrip(&mut store, &workdir) {
         Some(f) => {
